@@ -59,9 +59,6 @@ var kReasoned = map[string]string{
 	"abort:components/guns/http.NewTransport:zap.L().Panic(\"HTTP transport configure fail\", zap.Error(err))":        "target without port: GunConfig.Target carries validate:\"endpoint,required\" (host:port), so SplitHostPort succeeds for every accepted config (C17 O17.4 keeps the tag)",
 	"abort:components/guns/http.NewHTTP2Transport:zap.L().Panic(\"HTTP/2 transport configure fail\", zap.Error(err))": "http2.ConfigureTransport fails only on a transport already configured for HTTP/2; NewTransport returns a fresh one",
 	"abort:components/guns/http.newConnectDialFunc$1:panic(\"unsupported network \" + network)":                       "net/http dials its transports with network \"tcp\" only; not input dependent",
-	"assert:components/guns/http.HTTP1ClientConstructor:@components/guns/http/http.go:28:83":                          "go/ssa's nil check for the method value NewDialer(..).DialContext: NewDialer returns a non-nil Dialer on both paths",
-	"assert:components/guns/http.HTTP2ClientConstructor:@components/guns/http/http.go:45:88":                          "same nil check of NewDialer(..).DialContext",
-	"assert:components/providers/http.NewProvider:@components/providers/http/provider.go:49:19":                       "go/ssa's nil check for the method value file.Close of a file that was just opened without error",
 	"assert:(components/guns/http.redirectClient).CloseIdleConnections:c.Transport.(*http.Transport)":                 "redirectClient is built only by NewRedirectingClient with &http.Client{Transport: tr}, tr a *http.Transport",
 	"assert:lib/netutil.LookupReachable:conn.RemoteAddr().(*net.TCPAddr)":                                             "the connection was dialed with the constant network \"tcp\"",
 	"assert:lib/netutil.NewDNSCachingDialer$1:conn.RemoteAddr().(*net.TCPAddr)":                                       "used by HTTP transports and WarmDNSCache, which dial \"tcp\"; the connect gun panics earlier on any other network",
